@@ -203,3 +203,14 @@ func (w *MWorld) Dangling() bool {
 	}
 	return false
 }
+
+// HasAt: some permanode constraint is evaluated at a time other than now.
+func HasAt(c *Cons) bool {
+	found := false
+	visitor{perm: func(p *PermC) {
+		if p.At != 0 {
+			found = true
+		}
+	}}.walkC(c)
+	return found
+}
